@@ -176,7 +176,7 @@ class ForcePlatformsDataBlock(Block):
             ForcePlatformData._build(stream, format, n_frames) for _ in range(n_plats)
         ]
         block = ForcePlatformsDataBlock(start_time, frequency, n_frames)
-        block._plat_map = plat_map
+        block._plat_map = list(plat_map)
         block._platforms = platforms
 
         return block
